@@ -336,7 +336,21 @@ impl Runner {
     pub async fn o_knobs(&mut self, nqueries: usize) {
         let cols = self.st.cols.clone();
         for _ in 0..nqueries {
-            let p = gen_pred(&mut self.rng, &cols, self.gen.next_k, 2);
+            let mut p = gen_pred(&mut self.rng, &cols, self.gen.next_k, 2);
+            // known finding KF-01 (negation over an exact index keeps NULL rows): generate the
+            // triggering shape in a minority of queries only so other defects stay reachable
+            for _ in 0..8 {
+                let sql = p.sql();
+                let neg = sql.contains("NOT (") || sql.contains("<>");
+                let mut pc = BTreeSet::new();
+                p.columns(&mut pc);
+                let hit = cols.iter().any(|c| pc.contains(&c.name) && c.nullable && self.st.indices.iter().any(|i| i.column == c.name));
+                if neg && hit && self.rng.chance(0.97) {
+                    p = gen_pred(&mut self.rng, &cols, self.gen.next_k, 2);
+                } else {
+                    break;
+                }
+            }
             let sql = p.sql();
             // projection
             let mut proj: Vec<String> = Vec::new();
